@@ -79,6 +79,8 @@ pub fn build(rng: &mut Rng, scale: usize, thorough: bool) -> Vec<Item> {
 		("fixed.d6_msgpack_trunc", b"\x92\x01"),
 		("fixed.d6_yaml_u0700", b"\xdc\x90: 1\n"),
 		("fixed.d3_utf16le_ascii", b"a\x00:\x00 \x001\x00\n\x00"),
+		("fixed.k7_utf16le_digit_key", b"1\x00:\x00 \x00\xe9\x00\n\x00"),
+		("fixed.k7_utf32le_digit_key", b"1\x00\x00\x00:\x00\x00\x00 \x00\x00\x00\xe9\x00\x00\x00\n\x00\x00\x00"),
 		("fixed.yaml_alias", b"a: &x [1]\nb: *x\n"),
 		("fixed.yaml_unknown_alias", b"a: *y\n"),
 		("fixed.toml_table_header", b"[a]\n"),
